@@ -275,7 +275,10 @@ def cases(c):
                 out.append({'p': p, 'cplx': cplx, 'prof': prof, 'r0exp': 0, 'directed': p in (1, 2, 3, 16)})
     for i in range(1500 if c.tier == 'quick' else 9000):
         out.append({'p': int(rng.integers(1, 17)), 'cplx': int(rng.integers(0, 2)),
-                    'prof': gen.pick(rng, PROFILES), 'r0exp': int(rng.integers(-3, 4)), 'i': i})
+                    'prof': gen.pick(rng, PROFILES), 'r0exp': int(gen.pick(rng, [-10, -9, -6, -3, -2, -1, 0, 0, 1, 2, 3, 6])),
+                    'i': i})
+    for i in range(40 if c.tier == 'quick' else 600):
+        out.append({'p': int(rng.integers(1, 9)), 'cplx': 0, 'prof': 'integer-lags', 'r0exp': 0, 'i': i})
     return out
 
 
@@ -284,6 +287,8 @@ def run_case(c, d):
     rng = c.rng(d, 'k')
     p, cplx = d['p'], bool(d['cplx'])
     c.set_nontrivial(p >= 2)
+    if d['prof'] == 'integer-lags':
+        return integer_case(c, d, rng)
     k = rc_profile(rng, p, d['prof'], cplx)
     r0 = 10.0 ** d['r0exp'] * rng.uniform(1, 9)
     g = _gain(k)
@@ -355,6 +360,23 @@ def run_case(c, d):
                 if back is not None:
                     c.compare('roundtrip:poly->lsf->poly', np.asarray(back), a, 1e-6, feats,
                               scale=1.0 + float(np.max(np.abs(a))))
+
+
+def integer_case(c, d, rng):
+    """An autocorrelation given as integers (list / int64 array): lag products of integer data."""
+    import spectrum.linear_prediction as lp
+    p = d['p']
+    xi = gen.data({'kind': 'int', 'N': 3 * p + 8, 'cplx': False}, rng)
+    r = [int(np.dot(xi[k:], xi[:len(xi) - k])) for k in range(p + 1)]
+    lam = np.linalg.eigvalsh(refs.herm_toeplitz(np.array(r, dtype=float)))
+    if lam[0] <= 1e-6 * lam[-1]:
+        return c.discard('workload:integer-lags-not-clearly-PD')
+    for arg in (r, np.array(r, dtype=np.int64)):
+        for name in ('ac2poly', 'ac2rc'):
+            try:
+                getattr(lp, name)(arg)           # judged by the contracts
+            except Exception as exc:
+                c.exception(name, exc, {'fn': name, 'cplx': False, 'integer_input': True})
 
 
 def finish(c):
